@@ -564,7 +564,7 @@ distributions are over plain variables -/
 theorem qCovers_of_popsPlain (target : MG Name) (ds : List Domain) (o c : Event)
     (hv : validateC target ds o c = .ok ()) (hwf : target.WF) (hdsWF : ∀ d ∈ ds, d.graph.WF)
     (hbiT : ∀ d ∈ ds, ∀ a b, d.graph.BiEdge a b → isTnode a = false) (hplain : EventVarsPlain (o ++ c))
-    (hfound : OutcomesFound target o c = true) (hpp : PopsPlain ds) : QCovers target ds o c := by
+    (hpp : PopsPlain ds) : QCovers target ds o c := by
   intro dstar dNames q simplified h2 hu p hp _
   obtain ⟨hstrict, _, _, hnodes, _, hac, _⟩ := validateC_facts target ds o c hv
   have hloop : ∀ v, ¬ target.DiEdge v v := fun v hvv =>
@@ -575,16 +575,16 @@ theorem qCovers_of_popsPlain (target : MG Name) (ds : List Domain) (o c : Event)
     rcases List.mem_append.1 hp with h | h
     · exact List.mem_append_right _ h
     · exact List.mem_append_left _ h
-  obtain ⟨D, dstar', dNames', hD, h2', hDn, hfacts⟩ := line2C_ok target hwf o c
+  obtain ⟨lk, D, dstar', dNames', _, hrel, hfound, _, h2', hDn, hfacts⟩ := line2C_ok target hwf o c
     (fun p hp => hok p (List.mem_append_left _ hp)) (fun p hp => hok p (List.mem_append_right _ hp))
+    (fun p hp => (hplain p (List.mem_append_left _ hp)).1)
   rw [h2] at h2'
   simp only [Except.ok.injEq, Prod.mk.injEq] at h2'
   obtain ⟨rfl, rfl⟩ := h2'
-  have hpD : p.1 ∈ D := by
-    unfold OutcomesFound at hfound
-    rw [hD] at hfound
-    exact (mem'_iff _ _).1 (List.all_eq_true.1 hfound p hp)
-  obtain ⟨r, hr, hrn, hrv⟩ := hfacts.found p hp hpD
+  obtain ⟨p', hp', hpn', hpv'⟩ := hrel.of_out p hp
+  obtain ⟨r, hr, hrn', hrv'⟩ := hfacts.found p' hp' (hfound p' hp')
+  have hrn : r.1.name = p.1.name := by rw [hrn', hpn']
+  have hrv : r.2 = p.2 := by rw [hrv', hpv']
   obtain ⟨i, hi⟩ := Option.isSome_iff_exists.1 (hstrict p (List.mem_append_left _ hp))
   -- the pieces of the answer
   obtain ⟨hvU, hsimp, anc, factors, qs, hl2, htf, summed, _, hq⟩ := ctfTRu_answer_inv target ds dstar simplified q hu
@@ -637,15 +637,14 @@ theorem qCovers_of_popsPlain (target : MG Name) (ds : List Domain) (o c : Event)
 
 /-! ### the composition -/
 
-/-- **neither `DstarOneWorld` nor `OutcomeNotCondition` is needed for distributions over plain variables**: Algorithm 3
-never raises after validation when every outcome is found in the ancestral components under its own name -/
-theorem ctfTR_total_of_found (target : MG Name) (ds : List Domain) (o c : Event)
+/-- **no class hypothesis is needed for distributions over plain variables**: Algorithm 3 never raises after validation
+(after `fix:` f335599 every outcome is found in the ancestral components under its lookup key) -/
+theorem ctfTR_total_plain (target : MG Name) (ds : List Domain) (o c : Event)
     (hv : validateC target ds o c = .ok ()) (hwf : target.WF) (hds : ∀ d ∈ ds, d.graph.WF)
-    (hdom : DomainsAgree target ds) (hplain : EventVarsPlain (o ++ c))
-    (hfound : OutcomesFound target o c = true) (hpp : PopsPlain ds) :
+    (hdom : DomainsAgree target ds) (hplain : EventVarsPlain (o ++ c)) (hpp : PopsPlain ds) :
     ∀ err, ctfTR target ds o c ≠ .error err :=
-  ctfTR_total_of_cover target ds o c hv hwf hds hdom hplain hfound
-    (qCovers_of_popsPlain target ds o c hv hwf hds (fun d hd => (hdom d hd).2) hplain hfound hpp)
+  ctfTR_total_of_cover target ds o c hv hwf hds hdom hplain
+    (qCovers_of_popsPlain target ds o c hv hwf hds (fun d hd => (hdom d hd).2) hplain hpp)
     (popsCover_of_validateC target ds o c hv)
     (qGood_holds target ds o c hv hwf hds (fun d hd => (hdom d hd).2) hplain)
 
